@@ -267,7 +267,7 @@ def setitem_array_expr(out_name, array, indices, value):
                 stop = None
             value_indices[i] = slice(start, stop, -1)
 
-        if value_ndim > len(indices):
+        if value_ndim > len(value_indices):
             value_indices.insert(0, Ellipsis)
 
         # Get the value slice and concatenate to single chunk
